@@ -694,6 +694,20 @@ def scenarios(leaves):
                 out.append(('Ppar', [('Ppar', [x, y]), z]))
                 out.append(('Pseq', [('Ppar', [x, y]), z], 1))
                 out.append(('Ppar', [('Pseq', [x, y], 1), z]))
+    # three and four parallel voices of different lengths: a voice that ends
+    # while no other voice has an event makes Ppar insert a rest, after which
+    # at least two voices must still keep their own timelines
+    import itertools as _it
+    for trio in _it.combinations(L, 3):
+        out.append(('Ppar', list(trio)))
+    for quad in list(_it.combinations(L, 4))[::7]:
+        out.append(('Ppar', list(quad)))
+    t1 = ('Pbind', {'instrument': 'c14n', 'freq': [101, 102], 'dur': 0.5})
+    t2 = ('Pbind', {'instrument': 'c14n', 'freq': [201, 202, 203, 204], 'dur': 0.75})
+    t3 = ('Pbind', {'instrument': 'c14n', 'freq': [301, 302, 303, 304], 'dur': 0.8})
+    out.append(('Ppar', [t1, t2, t3]))
+    out.append(('Ppar', [t3, t1, t2]))
+    out.append(('Pdur', 3.0, ('Ppar', [t1, t2, t3])))
     for x in binds:
         for y in L:
             out.append(('Ppar', [('Pchain', DURS, x), y]))
